@@ -305,6 +305,14 @@ def run(ctx):
     cg.instance('pickle_copy returns decode(encode(value)) on every path', pc.qualname, ok, detail=why)
     if not ok:
         res.add(Finding('C01', 'C01.g', 'R-AGREE', pc.file, pc.qualname, pc.node.lineno, 'pickle_copy', why))
+    # ---- C01.n / C01.o the property's own premise and quantifier: with copy-on-interception on, captured inputs are shielded from later
+    # mutation (shared with C11.e); a recording stored through the asynchronous cassette is the recording that was made (shared with C12)
+    from . import c11 as _c11
+    from . import common as _cmn
+    cn_ = res.clause('C01.n', 'R-DOM', 'copy option on => the recorded input value is a copy (later mutation cannot change what replay injects)', floor=2)
+    _c11.copy_option_clause(ctx, res, cn_, 'C01', 'C01.n', outputs=False)
+    _cmn.import_clauses(ctx, res, 'C12', ['C12.a', 'C12.c', 'C12.d', 'C12.e', 'C12.f'], 'C01', 'C01.o', 'R-ORDER',
+                        'a recording stored through the asynchronous cassette holds every captured entry, each applied once and in order', floor=4)
     return res
 
 
